@@ -74,14 +74,28 @@ impl DocumentBuilder {
         self.element_builder = Some(ElementBuilder::new(prefix, name));
     }
 
-    fn prefix(&mut self, prefix: &str, namespace_uri: &str, xot: &mut Xot) {
+    fn prefix(
+        &mut self,
+        prefix: &str,
+        namespace_uri: &str,
+        span: Span,
+        xot: &mut Xot,
+    ) -> Result<(), ParseError> {
         let prefix_id = xot.prefix_lookup.get_id_mut(prefix);
         let namespace_id = xot.namespace_lookup.get_id_mut(namespace_uri);
-        self.element_builder
-            .as_mut()
-            .unwrap()
-            .namespaces
-            .push((prefix_id, namespace_id));
+        let namespaces = &mut self.element_builder.as_mut().unwrap().namespaces;
+        // a namespace declaration is an attribute, and an attribute name
+        // can only occur once in a start tag
+        if namespaces.iter().any(|(p, _)| *p == prefix_id) {
+            let attr_name = if prefix.is_empty() {
+                "xmlns".to_string()
+            } else {
+                format!("xmlns:{}", prefix)
+            };
+            return Err(ParseError::DuplicateAttribute(attr_name, span));
+        }
+        namespaces.push((prefix_id, namespace_id));
+        Ok(())
     }
 
     fn attribute(
@@ -166,6 +180,22 @@ impl DocumentBuilder {
                 attribute_builder.prefix_span,
                 xot,
             )?;
+            // two attributes written with different prefixes can still have
+            // the same expanded name
+            if attribute_spans
+                .iter()
+                .any(|(seen_name_id, _, _)| *seen_name_id == name_id)
+            {
+                let attr_name = if attribute_builder.prefix.is_empty() {
+                    attribute_builder.name
+                } else {
+                    format!("{}:{}", attribute_builder.prefix, attribute_builder.name)
+                };
+                return Err(ParseError::DuplicateAttribute(
+                    attr_name,
+                    attribute_builder.name_span,
+                ));
+            }
             // if we see xml:id, check that they aren't a duplicate
             // and keep track of all node ids that have an xml:id
             if name_id == self.xml_id_id {
@@ -680,10 +710,15 @@ impl Xot {
                             // a namespace declaration is an attribute: its value
                             // contains references and is normalized like any other
                             let uri = parse_attribute(value.as_str().into(), value.start())?;
-                            builder.prefix(local.as_str(), &uri, self);
+                            builder.prefix(
+                                local.as_str(),
+                                &uri,
+                                Span::from_prefix_name(prefix, local),
+                                self,
+                            )?;
                         } else if prefix.is_empty() && local.as_str() == "xmlns" {
                             let uri = parse_attribute(value.as_str().into(), value.start())?;
-                            builder.prefix("", &uri, self);
+                            builder.prefix("", &uri, Span::from_prefix_name(prefix, local), self)?;
                         } else {
                             builder.attribute(prefix, local, value)?;
                         }
